@@ -18,6 +18,8 @@ func main() {
 		runStore(os.Args[2])
 	case "filter":
 		runFilter()
+	case "quant":
+		runQuant()
 	default:
 		fmt.Fprintln(os.Stderr, "unknown engine")
 		os.Exit(2)
